@@ -3,7 +3,31 @@ harness binaries run the correspondence, what is trusted)."""
 
 GO_TRUST = "Go compiler/runtime; the harness (cmd/%s) and the Lean line-protocol driver, incl. their canonicalisation"
 
+GSYNC_COMMON = dict(
+    lean_modules=["Properties.C01", "Properties.C02"],
+    harness=[dict(bin="h-gsync", instrument=dict(src="/repo/gsync", dst="instr/gsyncx"))],
+    trusted=[GO_TRUST % "h-gsync", "cmd/instrument (rewrites only the import paths sync, sync/atomic and the builtin close)",
+             "internal/sched: cooperative scheduler and shims = sequentially consistent atomics, mutex, close",
+             "Go memory model: sync/atomic operations are sequentially consistent; select/timers (WaitTimeout/WaitCTX deadline clause)"],
+    assumptions=["callers never drive the count negative (hypothesis NonNeg of the theorems)",
+                 "the real Go scheduler and preemption inside a single atomic instruction are not modelled"],
+)
+
 PROPS = {
+    "C01": dict(
+        title="gsync: a Wait channel is never released while the count stayed above zero",
+        level_text="Machine-checked Lean 4 inductive invariant over the interleaving transition system of Add/Wait/Count at atomic-operation granularity: for EVERY number of goroutines, every client program and every schedule of any length, a channel returned by Wait is closed only if the counter was zero at some instant since that Wait started. The model is tied to /repo by lock-step execution of an instrumented copy of the real source under a cooperative scheduler (every step's label class and full observable state compared), and an implementation-side monitor evaluates the property exactly as worded over random and exhaustively enumerated bounded-preemption schedules.",
+        level_note="Trusted: Lean kernel + standard axioms; SC atomics (Go memory model) as implemented by the scheduler shims; the source rewriter; the harness and driver. Not modelled: the real Go scheduler, preemption within one atomic instruction.",
+        technique="Lean 4 proof (inductive invariant over all programs x schedules) + lock-step trace correspondence under a controlled scheduler",
+        explanation="theorem quantifies over all programs and schedules; lock-step tie C",
+        **GSYNC_COMMON),
+    "C02": dict(
+        title="gsync: waiters released at zero, consistent at rest, Wait never blocks",
+        level_text="Machine-checked Lean 4 theorems from the same inductive invariant: at every reachable state with no Add in flight Count() equals the sum of the deltas begun, count 0 => every channel ever returned by Wait is closed, count > 0 => the installed channel is open, and a Wait started there returns within two of its own steps whatever the other goroutines do (as long as no Add starts). Tied to /repo by the same lock-step runs plus Count()/Wait() probes at rest. The deadline clause of WaitTimeout/WaitCTX reduces to this by Go's select semantics (trusted).",
+        level_note="Trusted: as C01, plus Go's select/timer semantics for WaitTimeout/WaitCTX (they select on Wait()'s result; that Wait returns promptly is the proved part).",
+        technique="Lean 4 proof (inductive invariant; bounded termination of Wait at rest) + lock-step trace correspondence under a controlled scheduler",
+        explanation="quiescence theorems + two-step termination of Wait",
+        **GSYNC_COMMON),
     "C11": dict(
         title="set: BitSet is exact bit-set algebra and reports changes truthfully",
         lean_modules=["Properties.C11"],
